@@ -5,7 +5,8 @@
 (* block entered, per call, per end-of-contents hit, per return) against   *)
 (* the dispatch machine of DecoderSM.tla.                                  *)
 (* One trace = one decode call / one streaming session: [id, ev];          *)
-(* ev = flat 8-tuples <<kind, cid, a, b, c, d, e, f>>:                      *)
+(* ev = flat 10-tuples <<kind, cid, a, b, c, d, e, f, g, h>>; g is the     *)
+(* position of the (seekable) input at that point, h the length field:     *)
 (*  1 enter   a entry state (library number), b allowEoo, c guide kind     *)
 (*            (0 none 1 plain 2 open 3 map), d tags handed in, e = 1 iff   *)
 (*            the caller collects raw substrate (substrateFun)             *)
@@ -21,6 +22,11 @@
 (*            2 library error, other = foreign), b frames, c input length  *)
 (* Every frame must follow DecoderSM!NextState with the logged facts; the  *)
 (* acceptor names the first clause a trace breaks.                         *)
+(* Positions (the TLV tree is well nested, at every level - C07's "consumes *)
+(* exactly one encoding" for every member, not only the outermost value):   *)
+(*   a member call starts where the previous member ended (or where the     *)
+(*   contents start), a definite frame returns at contents start + length,  *)
+(*   a frame that had members returns where its last member ended.          *)
 (***************************************************************************)
 EXTENDS Integers, Sequences, TLC, Json, IOUtils
 
@@ -34,7 +40,7 @@ Traces == ndJsonDeserialize(IOEnv.TRACE_FILE)
 VARIABLES tid, l, fr, dead
 tvars == <<tid, l, fr, dead>>
 
-W == 8
+W == 10
 F(t, j, k) == Traces[t].ev[W * (j - 1) + k]
 NEv(t) == Len(Traces[t].ev) \div W
 Reject(t, j, clause) == PrintT(<<"REJECT", Traces[t].id, j, clause>>)
@@ -49,14 +55,21 @@ FrameBound(len) == 4 * len + 8
 
 TraceInit == tid \in 1..Len(Traces) /\ l = 0 /\ fr = <<>> /\ dead = FALSE
 
-TFrame(entry, eoo, spec, ntags, tag, indef, cid, collect) ==
-  NewFrame(entry, eoo, spec, ntags, tag, indef) @@ [cid |-> cid, entry |-> entry, wait |-> FALSE, seen |-> FALSE, collect |-> collect]
+TFrame(entry, eoo, spec, ntags, tag, indef, cid, collect, pos, cstart, flen) ==
+  NewFrame(entry, eoo, spec, ntags, tag, indef) @@
+  [cid |-> cid, entry |-> entry, wait |-> FALSE, seen |-> FALSE, collect |-> collect,
+   p0 |-> pos,            \* position at the call
+   cstart |-> cstart,     \* where the contents start (known once the header is read; -1 before)
+   flen |-> flen,         \* definite length of the contents, -1 = indefinite / not yet known
+   nxt |-> cstart]        \* where the next member has to start
 TopF == fr[Len(fr)]
 (* named deviation of the code, outside the listed properties: the decoder of an explicitly tagged CHOICE matches its   *)
 (* wrapper tag by class and number only and unwraps a wrapper flagged primitive (87 04 02 02 ff 7f under [7] CHOICE)     *)
 PrimitiveChoiceWrapper(f, childspec) == f.spec = "plain" /\ f.dec = "concrete" /\ f.tag.c # 0 /\ childspec = 3
 ReplaceF(f) == [fr EXCEPT ![Len(fr)] = f]
 PopF == SubSeq(fr, 1, Len(fr) - 1)
+(* the innermost frame returns at position p: its caller's next member starts there *)
+Returned(p) == IF Len(fr) = 1 THEN <<>> ELSE [PopF EXCEPT ![Len(fr) - 1] = [@ EXCEPT !.nxt = p, !.kids = @ + 1]]
 NoEnv == [chosen |-> TRUE, concrete |-> TRUE]
 
 Step ==
@@ -64,7 +77,7 @@ Step ==
   /\ IF dead THEN UNCHANGED <<fr, dead>>
      ELSE
      LET t == tid  j == l + 1  kind == F(t, j, 1)  cid == F(t, j, 2)  a == F(t, j, 3)  b == F(t, j, 4)  c == F(t, j, 5)
-         d == F(t, j, 6)  e == F(t, j, 7)  f == F(t, j, 8)
+         d == F(t, j, 6)  e == F(t, j, 7)  f == F(t, j, 8)  g == F(t, j, 9)  h == F(t, j, 10)
          bad(clause) == Reject(t, j, clause) /\ dead' = TRUE /\ UNCHANGED fr
          mine == fr # <<>> /\ TopF.cid = cid
      IN
@@ -74,35 +87,40 @@ Step ==
                  (IF b = 1 THEN bad("OutermostCallAllowsEoo")
                   ELSE IF e = 1 THEN bad("OutermostCallCollectsSubstrate")
                   ELSE IF a # 0 \/ d # 0 THEN bad("OutermostCallNotFresh")
-                  ELSE fr' = <<TFrame("Tag", FALSE, SpecName(c), 0, NoTag, FALSE, cid, FALSE)>> /\ UNCHANGED dead)
+                  ELSE fr' = <<TFrame("Tag", FALSE, SpecName(c), 0, NoTag, FALSE, cid, FALSE, g, -1, -1)>> /\ UNCHANGED dead)
             ELSE IF TopF.st # "Value" \/ ~TopF.seen THEN bad("CallFromOutsideTheValueState")
+            ELSE IF g # TopF.nxt THEN bad("MemberDoesNotStartWhereThePreviousEnded")
             ELSE IF a = 2 THEN     \* re-dispatch of an untagged CHOICE
                  (IF TopF.dec # "concrete" \/ TopF.spec = "none" THEN bad("RedispatchWithoutGuide")
                   ELSE IF d # TopF.ntags \/ c # 3 \/ b # 0 THEN bad("RedispatchLosesContext")
-                  ELSE fr' = Append(fr, TFrame("Get", FALSE, "map", d, TopF.tag, TopF.indef, cid, e = 1))
+                  ELSE fr' = Append(fr, TFrame("Get", FALSE, "map", d, TopF.tag, TopF.indef, cid, e = 1, g, TopF.cstart, TopF.flen))
                        /\ UNCHANGED dead)
             ELSE IF TopF.tag.k # 1 /\ ~TopF.indef /\ TopF.dec # "raw" /\ ~PrimitiveChoiceWrapper(TopF, c) THEN bad("MemberOfPrimitiveEncoding")
             ELSE IF b = 1 /\ ~TopF.indef THEN bad("EooAllowedInsideDefiniteLength")
             ELSE IF TopF.dec = "explicit" /\ (d # TopF.ntags \/ SpecName(c) # TopF.spec) THEN bad("ExplicitUnwrapLosesContext")
             ELSE IF TopF.dec # "explicit" /\ d # 0 THEN bad("MemberInheritsTags")
-            ELSE /\ fr' = Append(fr, TFrame("Tag", b = 1, SpecName(c), d, NoTag, FALSE, cid, e = 1))
+            ELSE /\ fr' = Append(fr, TFrame("Tag", b = 1, SpecName(c), d, NoTag, FALSE, cid, e = 1, g, -1, -1))
                  /\ UNCHANGED dead
                  /\ (TopF.tag.k # 1 /\ ~TopF.indef /\ TopF.dec # "raw" => PrintT(<<"DEV", Traces[t].id, j, "PrimitiveChoiceWrapper">>))
        [] kind = 2 ->     \* end-of-contents found
             IF ~mine THEN bad("EventOfSuspendedFrame")
             ELSE IF ~TopF.fresh \/ ~TopF.eoo THEN bad("EooNotAllowedHere")
             ELSE IF Len(fr) = 1 THEN bad("OutermostCallReturnsEoo")
-            ELSE fr' = PopF /\ UNCHANGED dead
+            ELSE IF g # TopF.p0 + 2 THEN bad("EooNotTwoOctets")
+            ELSE fr' = Returned(g) /\ UNCHANGED dead
        [] kind = 3 ->     \* a state block is entered
             IF ~mine THEN bad("EventOfSuspendedFrame")
             ELSE IF TopF.wait THEN bad("BySpecOutcomeMissing")
             ELSE IF StName(a) # TopF.st \/ (TopF.st = "Value" /\ TopF.seen) THEN bad("UnexpectedState")
             ELSE IF a = 2 THEN    \* Get: the tag and length just read
                  LET tg == [c |-> b, k |-> c, n |-> d]
-                     g == [TopF EXCEPT !.tag = tg, !.indef = (e = 1), !.ntags = f, !.fresh = FALSE, !.steps = @ + 1]
+                     gg == [TopF EXCEPT !.tag = tg, !.indef = (e = 1), !.ntags = f, !.fresh = FALSE, !.steps = @ + 1,
+                                        !.cstart = g, !.nxt = g, !.flen = IF e = 1 THEN -1 ELSE h]
                  IN IF TopF.entry = "Tag" /\ f # TopF.ntags + 1 THEN bad("TagStackNotExtendedByOne")
                     ELSE IF TopF.entry = "Get" /\ (f # TopF.ntags \/ tg # TopF.tag \/ (e = 1) # TopF.indef) THEN bad("RedispatchChangedTheTag")
-                    ELSE fr' = ReplaceF([g EXCEPT !.st = NextState(g, NoEnv)]) /\ UNCHANGED dead
+                    ELSE IF TopF.entry = "Tag" /\ g < TopF.p0 + 2 THEN bad("HeaderShorterThanTwoOctets")
+                    ELSE IF TopF.entry = "Get" /\ (g # TopF.p0 \/ g # TopF.cstart) THEN bad("RedispatchMovedTheInput")
+                    ELSE fr' = ReplaceF([gg EXCEPT !.st = NextState(gg, NoEnv)]) /\ UNCHANGED dead
             ELSE IF a = 3 THEN    \* BySpec: the outcome follows in a `spec` event
                  fr' = ReplaceF([TopF EXCEPT !.wait = TRUE, !.fresh = FALSE]) /\ UNCHANGED dead
             ELSE IF a = 6 THEN    \* Value: the decoder about to run
@@ -124,7 +142,9 @@ Step ==
             IF ~mine THEN bad("EventOfSuspendedFrame")
             ELSE IF TopF.st # "Value" \/ ~TopF.seen THEN bad("ReturnWithoutRunningADecoder")
             ELSE IF a # 1 /\ ~TopF.collect THEN bad("ReturnsNoValue")
-            ELSE fr' = PopF /\ UNCHANGED dead
+            ELSE IF TopF.flen >= 0 /\ g # TopF.cstart + TopF.flen THEN bad("DefiniteFrameDoesNotEndAtItsLength")
+            ELSE IF TopF.kids > 0 /\ g # TopF.nxt THEN bad("MembersDoNotFillTheContents")
+            ELSE fr' = Returned(g) /\ UNCHANGED dead
        [] kind = 9 ->     \* outcome of the whole call
             IF a = 1 /\ fr # <<>> THEN bad("ValueWithOpenFrames")
             ELSE IF a \notin {1, 2} THEN bad("ForeignOutcome")
